@@ -105,6 +105,20 @@ class TSet(Ty):
         return f'Set({self.elem})'
 
 
+class TObj(Ty):
+    """one of a fixed table of python objects (hash constructors, cipher algorithm classes): an int index"""
+    kind = 'obj'
+
+    def __init__(self, name):
+        self.name = name
+
+    def key(self):
+        return ('obj', self.name)
+
+    def __repr__(self):
+        return f'Obj({self.name})'
+
+
 class TRec(Ty):
     """value class -> z3 datatype"""
     kind = 'rec'
@@ -180,6 +194,8 @@ def sort_name(ty):
         return ty.name
     if k == 'ref':
         return 'ref'
+    if k == 'obj':
+        return 'obj'
     if k == 'dict':
         return 'Dict_' + sort_name(ty.k) + '_' + sort_name(ty.v)
     if k == 'set':
@@ -192,7 +208,7 @@ def sort_of(ty):
     if key in _SORT_CACHE:
         return _SORT_CACHE[key]
     k = ty.kind
-    if k == 'int' or k == 'ref':
+    if k == 'int' or k == 'ref' or k == 'obj':
         s = z3.IntSort()
     elif k == 'bool':
         s = z3.BoolSort()
